@@ -52,6 +52,12 @@ def emit_types(u, vt_fns):
 
 def build(u):
     u.load_contracts('contracts/u_align.vc')
+    if u.sentinel:
+        # The vacuity variant puts `assert(false)` after the fn's `requires` AND at the head of each loop body.  With
+        # loop_isolation(false) the first one would be assumed inside the loop and mask the second, so the vacuity
+        # variant keeps loop isolation on (its loop sentinel then tests exactly the invariants, as for every other unit).
+        for c in u.contracts.values():
+            c.attrs = [a for a in c.attrs if 'loop_isolation' not in a]
     emit_types(u, ['known_size_in_bytes_as_word_member'])
     u.include('prelude/align_std.rs')
     u.raw('use value_type::MAXIMUM_ALIGNMENT;')
